@@ -393,6 +393,30 @@ def witness_tight():
     return sim.ops
 
 
+def witness_known(kind):
+    sim = Sim()
+    ids = [1, 2, 3, 4]
+    sim.cfg(10, 100, 300, 50, None, (50, 100, 1, 2), ids)
+    sim.ready_all(True)
+    for i in (1, 2, 3):
+        sim.calls(i, 4, 0)
+    sim.calls(4, 0, 4)
+    sim.op("sleep 10")
+    if kind == "removed":        # F5a
+        sim.cfg(10, 100, 300, 50, None, (50, 100, 1, 2), [1, 2, 3])
+        sim.cfg(10, 100, 300, 50, None, (50, 100, 1, 2), [1, 2, 3, 4])
+        sim.op("sleep 20")
+    elif kind == "again":        # F5c
+        sim.calls(4, 0, 4)
+        sim.op("sleep 10")
+        sim.op("sleep 300")
+    elif kind == "late":         # F5d
+        sim.op("sc 4 0")
+        sim.op("sc 4 2")
+        sim.op("health 4 2")
+    return sim.ops
+
+
 FAMILIES = [(sc_success_rate, 5), (sc_failure_pct, 5), (sc_multiplier, 3), (sc_config_changes, 4), (sc_subconns, 3),
             (sc_soup, 4), (sc_early_ready, 1)]
 
@@ -401,6 +425,8 @@ def gen(rng, tier):
     n = {"quick": 160, "thorough": 5000, "search": 2500}[tier]
     yield Case("s_outlier", witness_float_share(), "witness-29-of-50-at-58")
     yield Case("s_outlier", witness_tight(), "witness-equal-rates")
+    for k in ("removed", "again", "late"):
+        yield Case("s_outlier", witness_known(k), "witness-" + k)
     for (nn, pct, k) in ((4, 25, 2), (4, 26, 2), (4, 50, 3), (3, 34, 2), (3, 33, 2), (2, 50, 2), (5, 0, 1), (5, 100, 5), (20, 55, 12), (25, 28, 8)):
         yield Case("s_outlier", witness_exact_share(nn, pct, k), "share-%d-%d-%d" % (nn, pct, k))
     tot = sum(w for _, w in FAMILIES)
